@@ -13,7 +13,7 @@ META = {
     "bounds": {"quick": "14 stream templates of <=4 items (frames with 2/3/19/600/1023-byte payloads, NMEA, UBX, inert and FREE noise bytes); validate a free integer, parsed a "
                         "free boolean, error modes 0/1/2, label option 1/2; CRC bytes free when validation is off; every run compared inside one path with the reference run "
                         "(validate=1, parsed=True, correct checksums)",
-               "thorough": "all 2- and 3-item templates"},
+               "thorough": "additionally all 2-item templates over 9 item kinds and four longer ones"},
     "outside": "streams outside the templates",
     "assumptions": ["reference run: the code's own CRC result over each generated frame assumed zero"],
 }
@@ -24,7 +24,13 @@ TEMPLATES = [('R2',), ('R2', 'R3'), ('R19', 'N', 'R2'), ('N', 'R3', 'U2'), ('X2'
 
 def jobs(tier, seed):
     out = []
-    for i, t in enumerate(TEMPLATES):
+    templates = list(TEMPLATES)
+    if tier != 'quick':
+        import itertools
+        kinds = ('R2', 'R3', 'R19', 'N', 'U2', 'X1', 'F1', 'R0', 'M11')
+        templates += [t for t in itertools.product(kinds, repeat=2) if t not in templates and any(k[0] in 'RM' for k in t)]
+        templates += [('R2', 'N', 'R3', 'U2'), ('F1', 'R2', 'F1', 'R3'), ('R19', 'R19', 'R2'), ('M11', 'N', 'M11')]
+    for i, t in enumerate(templates):
         out.append(('validate', t, i % 3, 1 + i % 2))
         out.append(('parsed', t, (i + 1) % 3, 1))
     out += [('static', 4072, 4), ('static', 1005, 19), ('static', 1077, 0), ('static', 4072, 600)]
